@@ -164,8 +164,13 @@ def run(ctx):
     rec_ = [c for c in ast.walk(ab_) if isinstance(c, ast.Call) and call_name(c) == "_as_binary"]
     many_ = [c for c in rec_ if same_expr(c.args[0] if c.args else None, "child")]
     copies_ = [c for c in ast.walk(ab_) if isinstance(c, ast.Call) and isinstance(c.func, ast.Attribute) and c.func.attr == "copy"]
+    # ... and hung there with the distance the conversion REPORTS for it (a single-child node that was collapsed below it has added
+    # its own branch length to that distance): both come out of the same call
+    pair_ = [st for st in ast.walk(ab_) if isinstance(st, ast.Assign) and isinstance(st.targets[0], (ast.Tuple, ast.List)) and len(st.targets[0].elts) == 2
+             and any(c is y for c in many_ for y in ast.walk(st.value))]
+    own_dist_ = [x for x in ast.walk(ab_) if isinstance(x, ast.Attribute) and x.attr == "distance" and isinstance(x.value, ast.Name) and x.value.id == "child"]
     ctx.ob("R3.binary-converts-every-child", TREE, "_as_binary", "_as_binary(child) for every child of a node with three or more children",
-           len(rec_) >= 3 and bool(many_) and not copies_,
+           len(rec_) >= 3 and bool(many_) and not copies_ and bool(pair_) and not own_dist_,
            "a child that is merely copied keeps its own multifurcations: the result of as_binary() still has nodes with more than two "
            "children below the first level", ab_.lineno)
     # an inner node may carry a label in front of its distance (`(a:1,b:2)95:0.3`): the distance is what follows the colon
